@@ -587,7 +587,18 @@ def doOp (a : Acc) (idx : Nat) (op : Json) : R Acc := do
     let race ← getObj op "race"
     let inner ← getObj race "inner"
     let raced := getBoolD op "raced" false
-    let expect := Json.mkObj [("deadlock", Json.bool false), ("raced", Json.bool raced)]
+    -- a batch is rejected exactly when it is invalid (a null reference value); another writer is no reason
+    let verdict (o : Json) : String :=
+      let ents : List Json := match getStrD o "op" "" with
+        | "store" => (getArrD o "ents").toList
+        | _ => (getArrD o "parts").toList.flatMap fun p => (getArrD p "ents").toList
+      let bad := ents.any fun e => match getOpt e "refs" with
+        | some (.obj kvs) => kvs.toList.any fun (_, v) => v.isNull
+        | _ => false
+      let nods := getStrD o "rc" "" == "nods"
+      if nods then "nods" else if bad then "err" else "ok"
+    let expect := Json.mkObj [("deadlock", Json.bool false), ("raced", Json.bool raced), ("outer", Json.str (verdict op)),
+      ("inner", Json.str (if raced then verdict inner else "-"))]
     if getBoolD op "deadlock" false then
       return { a with outM := a.outM.push expect, outS := a.outS.push expect, nt := a.nt + 1 }
     let a1 ← if !raced then doOpCore a idx op
